@@ -2,6 +2,7 @@ import SpecVerif.Model.Basic
 import SpecVerif.Model.DFT
 import SpecVerif.Model.Correlation
 import SpecVerif.Model.Periodogram
+import SpecVerif.Model.Daniell
 import SpecVerif.Model.Levinson
 import SpecVerif.Model.Sides
 import SpecVerif.Model.Arma
@@ -13,6 +14,7 @@ import SpecVerif.Model.Eigen
 import SpecVerif.Model.Mtm
 import SpecVerif.Model.ClassGlue
 import SpecVerif.Model.Object
+import SpecVerif.Model.ObjectF
 import SpecVerif.Model.Window
 import SpecVerif.Model.Criteria
 import SpecVerif.Model.Dpss
@@ -207,6 +209,17 @@ def handle (cmd : String) (hd : List String) (vs : List (List K)) : Reply K :=
       let nfft := natAt hd 1
       needTw nfft (fun t =>
         .ok (speriodogram2 t (vs.drop 1) (vecAt vs 0) nfft (natAt hd 0 = 1)))
+  | "daniell" =>
+      -- daniell P | psd      (smoothing stage only; exact in Q mode).  P = 0 or a one-point periodogram: the code divides 0 by 0
+      let psd := vecAt vs 0
+      if natAt hd 0 = 0 || psd.length ≤ 1 then .error "singular"
+      else .ok [daniell psd (natAt hd 0)]
+  | "daniellpg" =>
+      -- daniellpg isReal nfft P | x | w      (DaniellPeriodogram with detrend=None, scale_by_freq=False)
+      let nfft := natAt hd 1
+      if natAt hd 2 = 0 || (if natAt hd 0 = 1 then nfft / 2 + 1 else nfft) ≤ 1 then .error "singular"
+      else needTw nfft (fun t =>
+        .ok [daniellPeriodogram t (vecAt vs 0) (vecAt vs 1) nfft (natAt hd 2) (natAt hd 0 = 1)])
   | "corrgram" =>
       let nfft := natAt hd 1
       needTw nfft (fun t =>
@@ -535,6 +548,26 @@ def runObjHist (hd : List String) : String :=
       (r.1, acc.2 ++ [obsLine r.1 r.2])) (objInit a (g 0 = 1), [])
     "ok ; " ++ " ; ".intercalate outs
 
+/-- `objhistf …` : as `objhist`, for estimators that can fail (`Model/ObjectF.lean`).  An operation written `op!` is executed
+    with `ok (current attributes) = false` (the harness obtains that bit from a freshly constructed object with the same
+    attribute values); `objStepF` evaluates `ok` at the current attributes only. -/
+def runObjHistF (hd : List String) : String :=
+  let g := fun i => natAt hd i
+  let a : Attrs := { dataId := g 11, cplx := g 1 = 1, N := g 2, nfft := g 3, samp := g 4, detrend := g 5, scale := g 6 = 1,
+                     window := g 7, lag := g 8, arOrder := g 9, maOrder := g 10 }
+  let parse := fun (t : String) =>
+    match t.splitOn "!" with
+    | [b, ""] => (parseObjOp b).map (fun o => (o, false))
+    | [b] => (parseObjOp b).map (fun o => (o, true))
+    | _ => none
+  match (hd.drop 12).mapM parse with
+  | none => "err parse"
+  | some ops =>
+    let (_, outs) := ops.foldl (fun (acc : ObjState × List String) (op : ObjOp × Bool) =>
+      let r := objStepF (fun _ => op.2) acc.1 op.1
+      (r.1, acc.2 ++ [obsLine r.1 r.2])) (objInit a (g 0 = 1), [])
+    "ok ; " ++ " ; ".intercalate outs
+
 def runAt (K : Type) [Add K] [Sub K] [Mul K] [Div K] [Neg K] [OfNat K 0] [OfNat K 1] [NatCast K]
     [Conj K] [ReOrd K] [Twid K] [LogRe K] [ReF K] [IsZero K] [Codec K] (cmd : String) (hd : List String)
     (secs : List (List String)) : String :=
@@ -550,6 +583,7 @@ def processLine (line : String) : String :=
   match splitSections toks with
   | (cmd :: mode :: hd) :: secs =>
       if cmd = "objhist" then runObjHist hd
+      else if cmd = "objhistf" then runObjHistF hd
       else if mode = "F" then
         match secs.mapM (parseVec (K := CFloat)) with
         | none => "err parse"
